@@ -55,9 +55,6 @@ impl<TS: TimeSource> ClaimTable<TS> {
                 if let Some(pos) = pos {
                     entry.timeout = TS::now() + self.claim_timeout as Time;
                     claims.swap_remove(pos);
-                    if claims.is_empty() {
-                        break;
-                    }
                 } else {
                     entry.timeout = 0;
                     removed_claim = true;
